@@ -2,13 +2,14 @@
 coq/Chan/MpscB.v).  Generator (with its own cheap bookkeeping so blocking forms are only issued
 where they complete), shrinker split, and the property MONITOR for C01/C02/C03/C04/C06/C09 which
 judges the implementation's outputs alone (its own reference FIFO / handle / future bookkeeping)."""
+import os
 from collections import Counter
 
 from .flow import Engine
 
 # model switches: bit0 = F-03 repaired (recv_timeout tests the handle's closed flag),
 #                 bit1 = F-M1 repaired (clone of a closed sender is closed).  0 = the code as it is.
-FIXFLAGS = 0
+FIXFLAGS = int(os.environ.get("VERIF_MPSC_FIXFLAGS", "0"))   # 3 = run against a tree with both repairs applied
 
 ARITY = {"ts": 3, "sd": 3, "tr": 2, "rc": 2, "rt": 2, "cl": 2, "dr": 2, "cn": 3, "tos": 2, "toa": 2,
          "ln": 2, "ie": 2, "if": 2, "cp": 2, "ic": 2, "ms": 4, "mr": 3, "pl": 3, "df": 2, "pn": 3,
@@ -855,7 +856,7 @@ PROPS = {
     "C04": _p("mpsc bounded (K2): Disconnected only when drained and no open sender; Disconnected final except via clone-of-closed-sender (F-M1, full theorem for the repaired Clone); Closed+value after the receiver is gone; clone isolation; closed handle rejects every form except recv_timeout (F-03, full theorem for the repaired form); close idempotent",
               {"F-03-mpscb": (ENGINE, W_F03, "C04:F-03-recv-timeout-on-closed"),
                "F-M1-mpscb": (ENGINE, W_FM1, "C04:F-M1-clone-after-close")}),
-    "C06": _p("mpsc bounded futures/stream (K2): see docs/mpscb.md",
+    "C06": _p("mpsc bounded futures/stream (K2, all create/poll/drop histories): receive side full clause (pending receive future/stream woken as soon as its poll would be Ready; single outstanding receive waiter), no dangling registration on either side, disconnect wakes every pending sender, every pending sender is queued-or-woken; literal send-side clause refuted (F-11 one wake per publication; F-30 unpublished credit) with the 'wake is held by someone' theorem for histories without a cancelled wake holder",
               {"F-11-mpscb": (ENGINE, W_F11, "C06:F-11-one-wake-per-publication"),
                "F-30-mpscb": (ENGINE, W_F30, "C06:F-30-unpublished-credit")}),
     "C09": _p("mpsc bounded (K2): every id in exactly one location in every history; terminal locations only grow; drop events = ids moved to Dropped; after all handles/futures are gone (any teardown order) every id returned or dropped exactly once; D1 compares per-id drop counters incl. recycled chunks"),
